@@ -346,6 +346,7 @@ func Corpus(o Options) []Case {
 		sig("variadic of foreign", "M(a dep.T, v ...dep.T) dep.T")
 		sig("anonymous interface embedding a local interface", "M(x interface{ LClock; Name() string }) error")
 		sig("anonymous interface embedding local and foreign interfaces", "M() interface{ LClock; dep.I }")
+		sig("named foreign type followed by unnamed-typed parameters and results", "M(t dep3.T, names []string, n int, m map[string]bool) (dep3.T, []byte, bool)")
 		sig("param same name as type", "M(LT LT) LT")
 		sig("result func", "M() func(int, ...string) error")
 		sig("many methods", "A(a int) int\n\tB(b string) string\n\tC(c bool) bool\n\tD()")
@@ -384,8 +385,8 @@ func Corpus(o Options) []Case {
 		form("generic constraint with method", "[S dep.CM]", 1, "\tM(a S) string\n", []string{"M"}, [][]string{{"dep.Str"}}, "")
 		form("generic constraint mentions other param", "[E any, S ~[]E]", 2, "\tM(s S) E\n", []string{"M"}, [][]string{{"int", "[]int"}, {"src.LT", "[]src.LT"}}, "")
 		form("generic io constraint", "[R io.Reader]", 1, "\tM(r R) (R, error)\n", []string{"M"}, [][]string{{"io.Reader"}, {"*strings.Reader"}}, "")
-		form("generic tilde over composite types with qualified elements", "[S ~[]time.Duration, M ~map[string]dep.T]", 2, "\tM(s S, m M) (S, M)\n", []string{"M"}, [][]string{{"[]time.Duration", "map[string]dep.T"}}, "")
-		form("generic union of tilde composite and plain terms", "[U ~[]dep.T | ~map[dep.T]bool | *LT]", 1, "\tM(u U) U\n", []string{"M"}, [][]string{{"[]dep.T"}, {"*src.LT"}}, "")
+		form("generic tilde over composite types with qualified elements", "[S ~[]dep.T, M ~map[string]dep.T]", 2, "\tM(s S, m M) (S, M)\n", []string{"M"}, [][]string{{"[]dep.T", "map[string]dep.T"}}, "")
+		form("generic union of tilde composite and plain terms", "[U ~[]dep.T | ~map[dep.T]bool | *dep.T]", 1, "\tM(u U) U\n", []string{"M"}, [][]string{{"[]dep.T"}, {"*dep.T"}}, "")
 		// alias declarations that point back at the interface: they must not make it a second candidate
 		form("generic with aliases of its instantiations", "[K comparable, V any]", 2, "\tGet(k K) (V, bool)\n", []string{"Get"}, [][]string{{"int", "string"}, {"string", "src.LT"}},
 			"type %NAME%StrAlias = %NAME%[string, string]\n\ntype %NAME%IntAlias = %NAME%[int, []byte]\n\n")
